@@ -3,6 +3,7 @@ import ast
 import re
 
 from ..core import AnalysisError
+from .shared_py import inn
 from ..pyfront import unparse, norm_key
 from .. import excflow
 
@@ -207,13 +208,13 @@ def callbacks(ctx, L):
     pp = ctx.py.mod('prophyc.parsers.prophy')
     t = pp.func('Parser.t_error')
     s = ws(unparse(t.node))
-    L.check('t.lexer.skip(1)' in s and "self._parser_error(\"illegal character '{}'\".format(t.value[0]), t.lexer.lineno, t.lexpos)" in s,
+    L.check('t.lexer.skip(1)' in s and inn("self._parser_error(\"illegal character '{}'\".format(t.value[0]), t.lexer.lineno, t.lexpos)", s),
             'C13a.error-callbacks', 'prophy.Parser.t_error', t.site(), 'an illegal character must be recorded as an error (and skipped), '
             'never silently accepted', s)
     p = pp.func('Parser.p_error')
     s = ws(unparse(p.node))
-    L.check(s.rstrip().endswith('self._parser_error(message, line, pos)') and "message = 'unexpected end of input'" in s and
-            "message = \"syntax error at '{}'\".format(t.value)" in s, 'C13a.error-callbacks', 'prophy.Parser.p_error', p.site(),
+    L.check(s.rstrip().endswith('self._parser_error(message, line, pos)') and inn("message = 'unexpected end of input'", s) and
+            inn("message = \"syntax error at '{}'\".format(t.value)", s), 'C13a.error-callbacks', 'prophy.Parser.p_error', p.site(),
             'syntax errors (token or end of input) must be recorded', s)
     pe = pp.func('Parser._parser_error')
     L.check('self.errors.append((' in ws(unparse(pe.node)), 'C13a.error-callbacks', 'prophy.Parser._parser_error', pe.site(),
